@@ -172,7 +172,7 @@ package sonic
 //@   modifies b.wi, b.data, memcap(b.data)
 
 //@ func (*ByteBuffer).PrepareRead
-//@   prop C09
+//@   prop C09, C19
 //@   requires bbInv(b)
 //@   ensures [inv] bbInv(b) && b.si == old(b.si) && b.wi == old(b.wi) && b.ri >= old(b.ri)
 //@   ensures [ok] err == nil && n >= 0 ==> b.ri - b.si >= n
@@ -235,7 +235,7 @@ package sonic
 //@   ensures [rest] result1 == nil && old(b.ri - b.si) > 0 ==> forall j :: b.si <= j && j < b.wi ==> b.data[j] == old(b.data[j+1])
 
 //@ func (*ByteBuffer).ReadFrom
-//@   prop C09
+//@   prop C09, C19
 //@   requires bbInv(b) && r != nil
 //@   ensures [inv] bbInv(b) && b.si == old(b.si) && b.ri == old(b.ri)
 //@   ensures [grow] result1 == nil ==> b.wi == old(b.wi) + int(result0) && 0 <= result0 && int(result0) <= old(cap(b.data) - b.wi)
@@ -249,7 +249,7 @@ package sonic
 //@   ensures [kept] forall j :: 0 <= j && j < old(b.wi) ==> b.data[j] == old(b.data[j])
 
 //@ func (*ByteBuffer).WriteTo
-//@   prop C09
+//@   prop C09, C19
 //@   requires bbInv(b) && w != nil
 //@   loop 1 invariant bbInv(b) && 0 <= writtenBytes && writtenBytes <= b.ri - b.si
 //@   loop 1 invariant b.si == old(b.si) && b.ri == old(b.ri) && b.wi == old(b.wi)
